@@ -77,6 +77,9 @@ func TestMain(m *testing.M) {
 		ProblemLogger = log.New(io.Discard, "", 0)
 		UpdateLogger = log.New(io.Discard, "", 0)
 	}
+	if os.Getenv("VERIF_CHILD") == "crash" {
+		vCrashChild() // C16: the re-executed binary that is killed during a configuration save
+	}
 	// stdout is noisy (fmt.Printf in the code under test) but goes to the shard's log file.
 	prop := os.Getenv("VERIF_PROP")
 	switch prop {
